@@ -447,6 +447,7 @@ func main() {
 	writeLean(classes)
 	if *out != "" {
 		extractCli(filepath.Dir(*out))
+		extractPurity(filepath.Dir(*out))
 	}
 	if *reportF != "" {
 		sort.Strings(rep.Unrecognised)
